@@ -6,6 +6,7 @@ import (
 	"fmt"
 	"os"
 	"path/filepath"
+	"sync/atomic"
 	"strings"
 
 	"verifharness/core"
@@ -15,6 +16,8 @@ import (
 func init() {
 	checks["C02"] = check{level: "exploration", run: runC02, replay: replayC02}
 }
+
+var cliFileSeq atomic.Int64
 
 type cliStreamCase struct {
 	Stream *gen.Stream `json:"stream"`
@@ -29,7 +32,7 @@ func (c *cliStreamCase) run(in []byte, args []string, tag string) ppResult {
 	if !c.FileArg {
 		return runPPEnv(in, c.UnsetTraceback, args...)
 	}
-	f := filepath.Join(os.Getenv("VERIF_WORK"), fmt.Sprintf("cli-%s-%x.txt", tag, core.Hash64(in)))
+	f := filepath.Join(os.Getenv("VERIF_WORK"), fmt.Sprintf("cli-%s-%d.txt", tag, cliFileSeq.Add(1)))
 	_ = os.WriteFile(f, in, 0o644)
 	defer os.Remove(f)
 	return runPPEnv(nil, c.UnsetTraceback, append(append([]string{}, args...), f)...)
